@@ -387,16 +387,19 @@ inductive Framed (p : Prog) : List Int → Prop
 /-- execution from `s` reaches a state satisfying `Q` -/
 def Leads (X : Setup) (s : VM.VMState) (Q : VM.VMState → Prop) : Prop := ∃ s', Reach X.p X.env s s' ∧ Q s'
 
-/-- **the code fragment that ends at `b` delivers the successes `rs`, in order, on demand.**  Entered in `s` above
-    the backtracking stack `T` with grouping stack `S`: for the first success `r` the interpreter reaches `b` at
-    `r.pos` with the captures of `r`, grouping stack `S'`, and whole frames `F` on top of `T`; whenever a later
-    failure backtracks into those frames, the remaining successes are delivered the same way; after the last one
-    the fragment fails into `T` with the grouping stack `S` and the captures `C0` it was entered with. -/
+/-- **the code fragment that ends at `b` delivers the successes `rs`, in order, on demand.**  `T` is the backtracking
+    stack the fragment was entered above, WITHOUT its bottom slot: the bottom slot (the text position saved by the
+    `Lazybranch` at code position 0) is rewritten by `UpdateBumpalong` and never read by any other instruction of the
+    fragment, so every state is described up to that slot (`T ++ [v]` for some `v`).  Entered in `s` above `T ++ [v]`
+    with grouping stack `S`: for the first success `r` the interpreter reaches `b` at `r.pos` with the captures of `r`,
+    grouping stack `S'`, and whole frames `F` on top of `T`; whenever a later failure backtracks into those frames
+    (whatever the bottom slot holds by then), the remaining successes are delivered the same way; after the last one the
+    fragment fails into `T` with the grouping stack `S` and the captures `C0` it was entered with. -/
 def Delivers (X : Setup) (b : Nat) (T S S' : List Int) (C0 : List (Nat × Nat × Nat)) :
     List St → VM.VMState → Prop
-  | [], s => Leads X s (FailAt X T S C0)
-  | r :: rs, s => ∃ F, Framed X.p F ∧ Leads X s (Entry X b r.pos (F ++ T) S' r.caps) ∧
-      ∀ s'', FailAt X (F ++ T) S' r.caps s'' → Delivers X b T S S' C0 rs s''
+  | [], s => Leads X s (fun s' => ∃ v, FailAt X (T ++ [v]) S C0 s')
+  | r :: rs, s => ∃ F, Framed X.p F ∧ Leads X s (fun s' => ∃ v, Entry X b r.pos (F ++ T ++ [v]) S' r.caps s') ∧
+      ∀ s'' v, FailAt X (F ++ T ++ [v]) S' r.caps s'' → Delivers X b T S S' C0 rs s''
 
 /-- the oracles of the interpreter and of the specification describe the same input: same text and `\G`
     origin, the same word characters, the same `RE2|ECMAScript` bit as the translation, and the k-th set of the
